@@ -285,7 +285,16 @@ func SolveAll(all []*Obligation, solv *Solvers) {
 				if len(batch) == 0 {
 					break
 				}
-				sub(batch)
+				// one short z3 run per query, no fallback chain: for an obligation listed as a known
+				// finding any answer other than unsat (a model, unknown, a timeout) confirms it is still
+				// not discharged
+				var q2 []string
+				for _, k := range batch {
+					q2 = append(q2, qs[k])
+				}
+				for j, r := range solv.solveBatch(q2, 3, false) {
+					rs[qi[batch[j]]] = r
+				}
 				for _, k := range batch {
 					if rs[qi[k]].Result != "unsat" {
 						done[todo[qi[k]].Name] = true
